@@ -40,6 +40,19 @@ def parseMasks (s : String) (n : Nat) : Option (List (Option (List Bool))) :=
 def parseRefIds (s : String) (n : Nat) : Option (List Nat) :=
   if s == "-" then some (List.range n) else parseNats s
 
+/-- ref ids may be negative or too large for uint32 (refused by the real code) -/
+def parseRefIdsI (s : String) (n : Nat) : Option (List Int) :=
+  if s == "-" then some ((List.range n).map Int.ofNat) else parseInts s
+
+/-- compression factor `c` or `num/den` -/
+def parseFrac (s : String) : Option (Nat × Nat) :=
+  match s.splitOn "/" with
+  | [a] => a.toNat?.map fun a => (a, 1)
+  | [a, b] => match a.toNat?, b.toNat? with
+    | some a, some b => some (a, b)
+    | _, _ => none
+  | _ => none
+
 def parseNb (s : String) : Option (Option Nat) :=
   if s == "d" then some none else s.toNat?.map some
 
@@ -137,19 +150,21 @@ def step (st : St) (line : String) : St × String :=
       | "seqs", [nb, refids, seqs, masks] =>
         match parseNb nb, parseLists seqs with
         | some nb, some seqs =>
-          match parseRefIds refids seqs.length, parseMasks masks seqs.length with
-          | some rs, some ms =>
+          match parseRefIdsI refids seqs.length, parseMasks masks seqs.length with
+          | some rsI, some ms =>
+            let rs := rsI.map Int.toNat
             if rs.length ≠ seqs.length || ms.length ≠ seqs.length then (st, showErr .indexError)
-            else addTable st (fromSequences a nb (zip3 rs seqs ms))
+            else addTable st (guardRefIds rsI (fromSequences a nb (zip3 rs seqs ms)))
           | _, _ => bad
         | _, _ => bad
       | "kms", [nb, refids, kms, masks] =>
         match parseNb nb, parseLists kms with
         | some nb, some kms =>
-          match parseRefIds refids kms.length, parseMasks masks kms.length with
-          | some rs, some ms =>
+          match parseRefIdsI refids kms.length, parseMasks masks kms.length with
+          | some rsI, some ms =>
+            let rs := rsI.map Int.toNat
             if rs.length ≠ kms.length || ms.length ≠ kms.length then (st, showErr .indexError)
-            else addTable st (fromKmers a nb (zip3 rs kms ms))
+            else addTable st (guardRefIds rsI (fromKmers a nb (zip3 rs kms ms)))
           | _, _ => bad
         | _, _ => bad
       | "sel", [nb, refids, poss, kms] =>
@@ -197,22 +212,20 @@ def step (st : St) (line : String) : St × String :=
         match tbl i, parseNats codes, (if mask == "-" then some none else (parseBits mask).map some),
               parseInts mat, thr.toInt? with
         | some t, some cs, some m, some mat, some thr =>
-          (st, showRes triplesOut (matchSeqSim (scoreSim t.alph mat thr) t cs m))
+          (st, showRes triplesOut (matchSeqRule t mat thr cs m))
         | none, _, _, _, _ => (st, "no-table")
         | _, _, _, _, _ => bad
       | "matchtabsim", [i, j, mat, thr] =>
         match tbl i, tbl j, parseInts mat, thr.toInt? with
         | some t, some o, some mat, some thr =>
-          (st, showRes (fun l => showTuples (l.map fun (a, b, c, d) => [a, b, c, d]))
-            (matchTableSim (scoreSim t.alph mat thr) t o))
+          (st, showRes (fun l => showTuples (l.map fun (a, b, c, d) => [a, b, c, d])) (matchTableRule t o mat thr))
         | none, _, _, _ => (st, "no-table")
         | _, none, _, _ => (st, "no-table")
         | _, _, _, _ => bad
       | "simk", [q, mat, thr] =>
         match q.toNat?, parseInts mat, thr.toInt? with
         | some q, some mat, some thr =>
-          if q ≥ a.size then (st, showErr .alphabetError)
-          else (st, "ok " ++ showNatsE (sortNats (bbSim a mat thr q)))
+          (st, showRes (fun l => showNatsE (sortNats l)) (similarKmersChecked a mat thr q))
         | _, _, _ => bad
       | "matchsel", [i, ps, ks] =>
         match tbl i, parseNats ps, parseNats ks with
@@ -312,9 +325,14 @@ def step (st : St) (line : String) : St × String :=
         match l.toNat? with
         | some l => (st, s!"ok {a.arrayLength l}")
         | none => bad
+      | "posbad", [kind] =>
+        -- from_positions with a position array that is not (n, 2): three columns / one dimension
+        (st, if kind == "3col" then showErr .indexError else if kind == "1d" then showErr .valueError else "bad-op")
       | "minim", [w, p, ks] =>
         match w.toNat?, resolvePerm st.tables p, parseNats ks with
-        | some w, some p, some ks => (st, showRes pairsOut (minimizerSelect w p ks))
+        | some w, some p, some ks =>
+          if ! p.ctorOk a.size then (st, showErr .indexError)
+          else (st, showRes pairsOut (minimizerSelect w p ks))
         | _, _, _ => bad
       | "sync", [s, p, offs, codes] =>
         match s.toNat?, parsePerm p, parseInts offs, parseNats codes with
@@ -329,8 +347,10 @@ def step (st : St) (line : String) : St × String :=
         | some s, some p, some offs, some ks => (st, showRes pairsOut (cachedSyncmerFromKmers a.n a.k s p offs ks))
         | _, _, _, _ => bad
       | "minc", [c, p, ks] =>
-        match c.toNat?, resolvePerm st.tables p, parseNats ks with
-        | some c, some p, some ks => (st, showRes pairsOut (mincodeSelect a c p ks))
+        match parseFrac c, resolvePerm st.tables p, parseNats ks with
+        | some (num, den), some p, some ks =>
+          if ! p.ctorOk a.size then (st, showErr .indexError)
+          else (st, showRes pairsOut (mincodeSelectQ a num den p ks))
         | _, _, _ => bad
       | _, _ => bad
   | _ => bad
